@@ -217,6 +217,9 @@ func parse(h *protocol.ResponseHeader, buf []byte) (int, error) {
 	if err != nil {
 		return 0, err
 	}
+	if err = ext.CheckHeaderBlockComplete(buf[m:]); err != nil {
+		return 0, err
+	}
 	n, err := parseHeaders(h, buf[m:])
 	if err != nil {
 		return 0, err
